@@ -22,7 +22,8 @@ def describe(tier):
                 f"{b['cers_chain']} content evaluation results; (b) small-scope trees: EVERY AHB tree shape (1-2 top-level groups, nesting <= 3, "
                 f"<= 2 children per kind, free-text and value-pool elements) with <= {b['full4']} nodes x EVERY labelling from the 4-class "
                 f"menu {H.CLASSES4} and with <= {b['full3']} nodes x every labelling from {H.CLASSES3}, x both flags, entered inputs "
-                "rotating over {None, '', 'x'}; (c) a fixed 10-node tree labelled with expressions containing packages, hints, format "
+                "rotating over {None, '', 'x'}; (b2) the same with siblings sharing a discriminator and data elements WITHOUT discriminator; (b3) a node whose expression cannot be evaluated (unknown package) at every "
+                "position of the chain below every labelling of its ancestors, and in a single-entry pool: NotImplementedError iff the node is visited; (c) a fixed 10-node tree labelled with expressions containing packages, hints, format "
                 "constraints, several modal marks (every pair of a 12-entry menu at every pair of positions is not enumerated: each menu "
                 "entry at each position). Oracle R7: discriminators in document order, exactly once, nothing below a forbidden node; the "
                 "status of every segment-level node and free-text element per the two documented tables incl. FILLED/EMPTY suffix; "
@@ -60,6 +61,8 @@ def plan(tier, seed):
     # siblings that share a discriminator (legal: three DTM segments, two SG12 groups): every shape with <= 5 nodes
     for si in range(len(list(T.shapes(5 if tier == "quick" else 6, 2)))):
         items.append({"fam": "samenames", "shape": si, "nmax": 5 if tier == "quick" else 6})
+    # expressions that cannot be evaluated (a package the resolver does not know) on nodes that are / are not visited
+    items.append({"fam": "unvisited"})
     # the segment-group / segment validators called directly with the parent status a caller hands in
     for first in range(len(H.CHAIN_MENU)):
         items.append({"fam": "direct", "first": first, "cer": first % b["cers_chain"]})
@@ -141,13 +144,21 @@ def _rename_same(groups):
     from mc.ref import validation as R7
 
     for n in R7.nodes(groups):
-        n["id"] = {"group": "SG12", "segment": "DTM", "free": "DTM->2380", "pool": "DTM->2005"}[n["kind"]]
+        # data elements may have NO discriminator at all (Optional field: "not found in the MIG")
+        n["id"] = {"group": "SG12", "segment": "DTM", "free": None, "pool": None}[n["kind"]]
     return groups
 
 
-def check_case(shape, exprs, cer, soll, entry="deep", variant=0, same_names=False, parent=None):
+def check_case(shape, exprs, cer, soll, entry="deep", variant=0, same_names=False, parent=None, single_entry=None):
     H.init()
     groups = H.model_from(shape, exprs, variant)
+    if single_entry:
+        from mc.ref import validation as R7
+
+        for n in R7.nodes(groups):
+            if n["kind"] == "pool":
+                n["entries"] = [{"q": "A", "expr": single_entry}]
+                n["input"] = "A"
     if same_names:
         groups = _rename_same(groups)
     use = groups
@@ -170,7 +181,7 @@ def check_case(shape, exprs, cer, soll, entry="deep", variant=0, same_names=Fals
         return []
     kind, exp, obs = diff
     return [{"kind": kind, "case": {"shape": shape, "exprs": list(exprs), "cer": cer, "soll_is_required": soll, "entry": entry,
-                                    "variant": variant, "same_names": same_names, "parent": parent},
+                                    "variant": variant, "same_names": same_names, "parent": parent, "single_entry": single_entry},
              "expected": exp, "observed": obs, "msg": f"exprs={list(exprs)} soll_is_required={soll}"}]
 
 
@@ -215,6 +226,19 @@ def run_item(item):
             if exprs[:2] == (H.CHAIN_MENU[0], H.CHAIN_MENU[0]):
                 for soll in (True, False):
                     _acc(r, check_case(CHAIN_SHAPE, exprs, item["cer"], soll, entry="segment_root"), 2, {"chain": list(exprs), "entry": "segment_root"})
+    elif fam == "unvisited":
+        pool_shape = (("G", (), (("S", ("P", "F")),)),)
+        for p in (1, 2, 3):
+            for above in itertools.product(["Muss [1]", "Muss [2]", "Kann [1]", "Soll [2]"], repeat=p):
+                exprs = list(above) + ["Muss [9P]"] + ["Muss [1]"] * (3 - p)
+                for soll in (True, False):
+                    _acc(r, check_case(CHAIN_SHAPE, tuple(exprs), 0, soll), 4, {"chain": exprs, "unknown_package_at": p})
+                    _acc(r, check_case(CHAIN_SHAPE, tuple(exprs), 0, soll, entry="segment_level"), 4, {"chain": exprs, "entry": "segment_level"})
+        # a single-entry pool offers its entry without evaluating it: an unknown package there is never looked at
+        for seg_expr in ("Muss [1]", "Muss [2]", "Kann [1]"):
+            for variant in (0, 1, 2):
+                _acc(r, check_case(pool_shape, ("Muss [1]", seg_expr, "X [9P]", "Muss [1]"), 0, True, variant=variant, single_entry="X [9P]"), 4,
+                     {"pool": "single entry with an unknown package", "segment": seg_expr})
     elif fam == "direct":
         seg_shape = (("G", (), (("S", ("F", "P")),)),)
         for rest in itertools.product(H.CHAIN_MENU, repeat=3):
@@ -282,4 +306,4 @@ def replay(case):
         out = base if case.get("zero_yield") else observe(vloop.run_schedule(factory_for(False), case["choices"]))
         return [{"kind": k, "case": case, "expected": e, "observed": o} for k, e, o in _orders_violations(item, groups, out, base)]
     return check_case(_tup(case["shape"]), case["exprs"], case["cer"], case["soll_is_required"], case.get("entry", "deep"),
-                      case.get("variant", 0), case.get("same_names", False), case.get("parent"))
+                      case.get("variant", 0), case.get("same_names", False), case.get("parent"), case.get("single_entry"))
